@@ -239,6 +239,19 @@ func (env *SpecEnv) eval(x ast.Expr) (SpecVal, error) {
 				return env.globalVar(o)
 			}
 		}
+		if env.f != nil && env.e.contract != nil {
+			// a local that was renamed since the committed version the contract was written against (see renames.go)
+			top := env.f.topFrame()
+			if nn, ok := e.p.renameMap(top.fn)[n.Name]; ok {
+				if v, ok := env.vars[nn]; ok {
+					e.note(fmt.Sprintf("%s: contract names %q; the variable is called %q in the working tree (function otherwise identical to the committed version)", top.fn.Name(), n.Name, nn))
+					return v, nil
+				}
+				if v, ok := env.vars["&"+nn]; ok {
+					_ = v
+				}
+			}
+		}
 		if env.fallback != nil {
 			if v, ok := env.fallback(n.Name); ok {
 				return v, nil
@@ -816,6 +829,11 @@ func (env *SpecEnv) callExpr(n *ast.CallExpr) (SpecVal, error) {
 			return SpecVal{}, fmt.Errorf("prev needs a variable name")
 		}
 		v, ok := env.prev[id.Name]
+		if !ok {
+			if nn := env.renamedTo(id.Name); nn != "" {
+				v, ok = env.prev[nn]
+			}
+		}
 		if !ok && env.fallbackPrev != nil {
 			v, ok = env.fallbackPrev(id.Name)
 		}
@@ -1210,7 +1228,20 @@ func (env *SpecEnv) addrOf(x ast.Expr) (SpecVal, error) {
 		if v, ok := env.vars["&"+n.Name]; ok {
 			return v, nil
 		}
+		if nn := env.renamedTo(n.Name); nn != "" {
+			if v, ok := env.vars["&"+nn]; ok {
+				return v, nil
+			}
+		}
 		return SpecVal{}, fmt.Errorf("&%s: not a local variable that lives in memory", n.Name)
 	}
 	return SpecVal{}, fmt.Errorf("unsupported operand of &")
+}
+
+// renamedTo: the current name of a local the contract knows under an older name (see renames.go), or "".
+func (env *SpecEnv) renamedTo(name string) string {
+	if env.f == nil || env.e.contract == nil {
+		return ""
+	}
+	return env.e.p.renameMap(env.f.topFrame().fn)[name]
 }
